@@ -95,6 +95,7 @@ pub struct ConcLab<C: Ciphersuite> {
     pub failures: Vec<String>,
     pub checks: u64,
     labels: Vec<String>,
+    lin: HashMap<String, String>,
     _c: PhantomData<C>,
 }
 
@@ -117,12 +118,17 @@ pub fn hex_to_limbs(h: &str) -> Vec<u64> {
 impl<C: Ciphersuite> ConcLab<C> {
     pub fn new(seed: u64, model: &[(String, String)]) -> Self {
         let mut m = HashMap::new();
+        let mut lin = HashMap::new();
         for (k, v) in model {
+            if let Some(n) = k.strip_prefix("lin:") {
+                lin.insert(n.to_string(), v.clone());
+                continue;
+            }
             if !k.starts_with("parity[") {
                 m.insert(k.clone(), hex_to_limbs(v));
             }
         }
-        ConcLab { rng: ConcRng { k: 0, seed, model: m, log: vec![], bytes: vec![] }, failures: vec![], checks: 0, labels: vec![], _c: PhantomData }
+        ConcLab { rng: ConcRng { k: 0, seed, model: m, log: vec![], bytes: vec![] }, failures: vec![], checks: 0, labels: vec![], lin, _c: PhantomData }
     }
     fn named(&mut self, name: &str) -> Scalar<C> {
         if let Some(l) = self.rng.model.get(name) {
@@ -166,6 +172,19 @@ impl<C: Ciphersuite> Lab<C> for ConcLab<C> {
             if let Some(c) = candidates.get(k[0] as usize) {
                 return *c;
             }
+        }
+        if let Some(code) = self.lin.get(name).cloned() {
+            // digits '0','1','2' = coefficients -1, 0, 1 over the candidates
+            use frost_core::{Field, Group};
+            let mut acc = <<C::Group as Group>::Field as Field>::zero();
+            for (d, c) in code.bytes().zip(candidates.iter()) {
+                match d {
+                    b'2' => acc = acc + *c,
+                    b'0' => acc = acc - *c,
+                    _ => {}
+                }
+            }
+            return acc;
         }
         self.named(name)
     }
